@@ -529,8 +529,9 @@ pub fn reference(name: &str, a: &[RVal]) -> RVal {
       if items.is_empty() {
         return Null;
       }
+      // a null item cannot be compared with the others: no minimum / maximum
       if items.iter().any(|x| matches!(x, Null)) {
-        return Unspec;
+        return Null;
       }
       let mut best = items[0].clone();
       if !matches!(best, Num(_) | Str(_)) {
@@ -1346,6 +1347,21 @@ fn eval_text(scope: &Scope, text: &str) -> Result<dmntk_feel::values::Value, Str
 /// Known defect classes are recognised by their cause, so that the finding stays specific.
 fn defect_class(name: &str, args: &[RVal], expected: &RVal, observed: &dmntk_feel::values::Value) -> Option<String> {
   use dmntk_feel::values::Value;
+  // max: null items after the first item are skipped (min yields null for the same list)
+  if name == "max" && matches!(expected, Null) && !matches!(observed, Value::Null(_)) {
+    let items: Vec<RVal> = if args.len() == 1 {
+      match &args[0] {
+        List(i) => i.clone(),
+        other => vec![other.clone()],
+      }
+    } else {
+      args.to_vec()
+    };
+    let without_nulls: Vec<RVal> = items.iter().filter(|i| !matches!(i, Null)).cloned().collect();
+    if !items.is_empty() && !matches!(items[0], Null) && without_nulls.len() < items.len() && !matches!(reference("max", &[List(without_nulls)]), Null) {
+      return Some("max:null-items-after-the-first-are-skipped".to_string());
+    }
+  }
   // all / any: a non-boolean item hides a decisive boolean item
   if matches!(name, "all" | "any") && matches!(expected, Bool(_)) && matches!(observed, Value::Null(_)) {
     let items: Vec<RVal> = if args.len() == 1 {
